@@ -53,7 +53,7 @@ CHECKS = {
 	'C12': dict(
 		category='exploration',
 		technique='Hypothesis-generated signature collections: dump/load round trip vs a list model; generated foreign byte strings and foreign HDF5 files must be refused',
-		text='Round trips over k 1..32 (all four index widths, values up to 4^k-1), empty/all-empty signatures, both write paths, string/int64/uint64 IDs (also strings that all look like numbers), Unicode metadata with nested JSON extra and every compression filter, stored integer types wider than / signed variants of the k-mer spec type, payloads above 64 Ki values, overwritten paths, pathlib paths, wrappers around already annotated wrappers (the outer labels count) and collections loaded from another signature file are compared field by field and index expression by index expression with a Python list model; generated non-signature files (empty, text, FASTA, random, gzip, short prefixes, HDF5 files of other kinds incl. signature-shaped files lacking only the marker, files carrying an HDF5 superblock at a non-zero offset such as a tar archive of a signature file) must raise SignaturesFileError, and corrupt HDF5-magic files some exception.',
+		text='Round trips over k 1..32 (all four index widths, values up to 4^k-1), empty/all-empty signatures, both write paths, string/int64/uint64 IDs (also strings that all look like numbers), Unicode metadata and IDs (also not in normalisation form C) with nested JSON extra and every compression filter, stored integer types wider than / signed variants of the k-mer spec type, payloads above 64 Ki values, overwritten paths, pathlib paths, wrappers around already annotated wrappers (the outer labels count) and collections loaded from another signature file are compared field by field and index expression by index expression with a Python list model; generated non-signature files (empty, text, FASTA, random, gzip, short prefixes, HDF5 files of other kinds incl. signature-shaped files lacking only the marker, files carrying an HDF5 superblock at a non-zero offset such as a tar archive of a signature file) must raise SignaturesFileError, and corrupt HDF5-magic files some exception.',
 		note='Strings contain no NUL / lone surrogates (not storable in HDF5 vlen strings). h5py/HDF5 are part of the system under test only through gambit\'s use of them.',
 		design='DESIGN.md §4 C12',
 	),
@@ -81,7 +81,7 @@ CHECKS = {
 	'C03': dict(
 		category='exploration',
 		technique='Hypothesis-generated forests x genome assignments x binary32 distance vectors (thresholds exactly at / one ulp off occurring distances) vs a dict model of the classification rules; metamorphic monotonicity',
-		text='classify() in default mode, GenomeMatch and reportable_taxon are compared with a dict model (closest at minimum distance, first lineage taxon with threshold >= d, primary == closest iff predicted, next = nearest threshold-bearing taxon below the prediction / topmost if none, first reportable ancestor) over generated forests with threshold-less, non-monotone and unreportable taxa, genomes on internal taxa and distances exactly equal to thresholds or within 1e-8 of each other without being equal; increasing distance may only keep or coarsen a prediction. End-to-end worlds (query() on a materialised database, also on a file that holds a second genome set over the same genomes) are covered by the world-level cases.',
+		text='classify() in default mode, GenomeMatch and reportable_taxon are compared with a dict model (closest at minimum distance, first lineage taxon with threshold >= d, primary == closest iff predicted, next = nearest threshold-bearing taxon below the prediction / topmost if none, first reportable ancestor) over generated forests with threshold-less, non-monotone and unreportable taxa, genomes on internal taxa and distances exactly equal to thresholds or within 1e-8 of each other without being equal; increasing distance may only keep or coarsen a prediction. End-to-end worlds (query() on a materialised database, also on a file that holds a second genome set over the same genomes, taxa written root-first or leaf-first) are covered by the world-level cases.',
 		note='Comparison d <= threshold is modelled exactly in binary64 (NumPy 1.26 semantics). One genuine defect found and repaired (next_taxon with a threshold-less genome taxon).',
 		design='DESIGN.md §4 C03',
 	),
@@ -102,7 +102,7 @@ CHECKS = {
 	'C09': dict(
 		category='exploration',
 		technique='Hypothesis-generated tie-heavy distance rows and tie-heavy databases vs sort-by-(distance, index) oracle; subprocess differential across NumPy CPU-dispatch settings and core counts',
-		text='closest_genomes is compared with the (distance, reference order) prefix for generated rows with heavy ties (lengths up to 1000, all report_closest shapes), for generated databases with identical/equidistant genomes (optionally sharing their file with a second genome set; one QueryParams object reused across databases of different size must come back unchanged; the JSON and CSV exports of every such result are parsed and the distance and matched taxon of each listed entry compared with the model), and the JSON/CSV outputs of real `gambit query` subprocesses are compared across NPY_DISABLE_CPU_FEATURES settings and -c values (byte-identical lists, CSV and JSON name the same closest genome).',
+		text='closest_genomes is compared with the (distance, reference order) prefix for generated rows with heavy ties (lengths up to 1200, all report_closest shapes, the minimum optionally occurring only at positions >= 257), for generated databases with identical/equidistant genomes (optionally sharing their file with a second genome set; one QueryParams object reused across databases of different size must come back unchanged; the JSON and CSV exports of every such result are parsed and the distance and matched taxon of each listed entry compared with the model), and the JSON/CSV outputs of real `gambit query` subprocesses are compared across NPY_DISABLE_CPU_FEATURES settings and -c values (byte-identical lists, CSV and JSON name the same closest genome).',
 		note='CPU dispatch is varied on this sandbox CPU only. One genuine defect found and repaired (unstable argsort).',
 		design='DESIGN.md §4 C09',
 	),
@@ -130,7 +130,7 @@ CHECKS = {
 	'C11': dict(
 		category='exploration',
 		technique='Hypothesis-generated real and synthetic QueryResults x 3 exporters; parse-back / field-by-field comparison with the results object, cross-format agreement, archive round trip (same and fresh session)',
-		text='Result sets produced by real strict/non-strict queries on generated worlds (optionally on a file holding a second genome set over the same genomes) and synthetic result sets assembled from generated ClassifierResults (arbitrary Unicode labels incl. commas/quotes/LF/CRLF, warnings, errors, missing files, drawn params incl. chunksize None, naive and time-zone-aware timestamps and extra JSON) are exported as CSV, JSON and archive; CSV is parsed back cell by cell, JSON must be strict JSON carrying the same data and agree with the CSV, and the archive must read back equal (deep comparison and ==) on the same and on a fresh session; exports are written to streams and, with exporter objects re-used for the life of the worker, to real file paths that are fresh or hold a longer older export (labels derived from undecodable file names included).',
+		text='Result sets produced by real strict/non-strict queries on generated worlds (optionally on a file holding a second genome set over the same genomes) and synthetic result sets assembled from generated ClassifierResults (arbitrary Unicode labels incl. commas/quotes/LF/CRLF, warnings, errors, missing files, drawn params incl. chunksize None, naive and time-zone-aware timestamps and extra JSON) are exported as CSV, JSON and archive; CSV is parsed back cell by cell, JSON must be strict JSON carrying the same data and agree with the CSV, and the archive must read back equal (deep comparison and ==) on the same and on a fresh session, with several reader objects alive and the oldest one reading; exports are written to streams and, with exporter objects re-used for the life of the worker, to real file paths that are fresh or hold a longer older export (labels derived from undecodable file names included).',
 		note='Lone CR is excluded from generated text (csv.writer with LF terminator cannot round-trip it; "newlines" read as LF/CRLF). Labels are str. One genuine defect found and repaired (archive with chunksize None unreadable).',
 		design='DESIGN.md §4 C11',
 	),
